@@ -54,12 +54,13 @@ def handle (op : String) (args : List String) : String :=
       | .ok M => "ok " ++ dumpTok (stripNpL S M) ++ " " ++ applyFields S (parseFixes fx) dflt A M C
   | "hyp3", [dsl, a, b, c, _fx] =>
     -- model only: the hypotheses of Props/C13Tree.lean merge_apply_partial_tree, evaluated on the triple:
-    -- schemaOK  wfForest(A,B,C)  canonT(A,B,C)  mergeSafe(diff(A,B), diff(B,C))
+    -- schemaOK  wfForest(A,B,C)  canonT(A,B,C)  mergeSafe(diff(A,B), diff(B,C))  mergeSafe0(diff(A,B), diff(B,C))
+    -- (the last two agree on well-formed trees: Diff/LemmasKeyCopy.lean mergeSafe_of_computed)
     withSchema dsl fun S => withTree S a fun A => withTree S b fun B => withTree S c fun C =>
       let b := fun (x : Bool) => if x then "1" else "0"
       "ok " ++ b (K13.schemaOK S) ++ " " ++ b (wfForest S A && wfForest S B && wfForest S C) ++ " " ++
         b (K13.canonT S A && K13.canonT S B && K13.canonT S C) ++ " " ++
-        b (mergeSafe S (diff S true A B) (diff S true B C))
+        b (mergeSafe S (diff S true A B) (diff S true B C)) ++ " " ++ b (mergeSafe0 S (diff S true A B) (diff S true B C))
   | "uocore", [a, b] =>
     -- model only: the operations of the list core for one user-ordered (leaf-)list, `UO.diffU'` and its repaired reversal
     -- `UO.reverseU` (Props/C13RevUO.lean: userord_reverse_apply); the check compares them with libyang's diff nodes
